@@ -67,6 +67,21 @@ Theorem C11_malformed_silent : forall st b, malformed b = true ->
   step true st b = (st, {| o_reply := Status 400; o_exit := false; o_pubs := [] |}).
 Proof. exact malformed_silent. Qed.
 
+(* (3b) The same sentence for the requests the server does not refuse but that name
+   nothing: "incall" with "all": true whose flags value is missing, null, a string, a
+   list, an object, a number with a fractional part or an integer outside 64 bits
+   ([names_no_state] of corr/Run_C11.v, from the API documentation).  Whatever the
+   state - in particular with participants in the call - the request is answered,
+   nothing panics, the state (call membership included) is unchanged and no session
+   receives an event ([no_events st ps]: for every session id, events_for st sid ps = []).
+   No hypothesis. *)
+Theorem C11_no_state_request_silent : forall st b, names_no_state b = true ->
+  fst (step true st b) = st /\
+  o_exit (snd (step true st b)) = false /\
+  (exists code, o_reply (snd (step true st b)) = Status code) /\
+  no_events st (o_pubs (snd (step true st b))).
+Proof. exact names_no_state_silent. Qed.
+
 (* The code as found violates (1) and (2): the three confirmed defects. *)
 Theorem C11_answered_refuted_unrepaired : exists st b, o_reply (snd (step false st b)) = NoReply.
 Proof. exists wst, w_invite. exact unrepaired_no_reply. Qed.
@@ -107,6 +122,13 @@ Proof. exact ex_incall_ok. Qed.
 Example C11_nonvacuous_malformed : forallb malformed ex_malformed = true.
 Proof. exact ex_malformed_ok. Qed.
 
+(* six requests of the second class (flags a string, an object, a list, 1.5, null, missing):
+   none is [malformed], all are answered 200 in a state with the fixture's session in the call *)
+Example C11_nonvacuous_no_state :
+  forallb names_no_state ex_no_state = true /\ forallb (fun b => negb (malformed b)) ex_no_state = true /\
+  forallb (fun b => match o_reply (snd (step true (with_incall wst [fixture_sid]) b)) with Status 200 => true | _ => false end) ex_no_state = true.
+Proof. exact ex_no_state_ok. Qed.
+
 Print Assumptions C11_schema.
 Print Assumptions C11_answered_never_fatal.
 Print Assumptions C11_history_never_fatal.
@@ -115,6 +137,7 @@ Print Assumptions C11_history_total_partial.
 Print Assumptions C11_other_status_cases.
 Print Assumptions C11_room_api_total_refuted.
 Print Assumptions C11_malformed_silent.
+Print Assumptions C11_no_state_request_silent.
 Print Assumptions C11_answered_refuted_unrepaired.
 Print Assumptions C11_status_refuted_unrepaired.
 Print Assumptions C11_never_fatal_refuted_unrepaired.
